@@ -60,6 +60,10 @@ def od_factory():
                                  R.OCTET_STRING: (b"\x01\x02\x03", None), R.DOMAIN: (b"default blob", b"configured blob")}.items():
         for var in (od[gen.TYPE_INDEX_BASE + dt], od[0x2100][member_sub(dt)]):
             var.default, var.value = default, value
+    # a record whose member names contain dots themselves ("Max. current"): 'Record.Member' is split at the first dot
+    od.add_object(gen.record("Motor", 0x2300, [gen.variable("Highest sub-index", 0x2300, 0, R.UNSIGNED8, "const", default=2),
+                                               gen.variable("Max. current", 0x2300, 1, R.UNSIGNED16),
+                                               gen.variable("Serial no.", 0x2300, 2, R.UNSIGNED32)]))
     return od
 
 
@@ -197,6 +201,20 @@ def run_inline(ctx, desc):
         run_shared_od(ctx, desc)
     rig = rigs.PairRig(od_factory, node_ids=(3,))
     rng = random.Random(repr(("c03i", desc["cs"])))
+    if desc["part"] == 1:
+        for key, sub, dt in (("Motor.Max. current", 1, R.UNSIGNED16), ("Motor.Serial no.", 2, R.UNSIGNED32)):
+            for v in R.boundary_ints(dt)[:6]:
+                case = {"mode": "inline", "key": key, "value": v}
+                ctx.case(("inline", R.NAMES[dt], "dotted-member-name"), nontrivial=True)
+                try:
+                    rig.node.sdo[key].raw = v
+                    ctx.count("roundtrips")
+                    ctx.count("store_bytes_compared")
+                    if rig.local.data_store.get(0x2300, {}).get(sub) != R.encode(dt, v) or rig.node.sdo[key].raw != v or rig.local.sdo[key].raw != v \
+                            or rig.node.sdo[0x2300][sub].raw != v:
+                        ctx.violation("readback-mismatch:dotted-member-name", f"{key!r} = {v}: store {rig.local.data_store.get(0x2300, {}).get(sub)!r}", case)
+                except Exception as exc:  # noqa: BLE001
+                    ctx.violation(f"roundtrip-raised:{type(exc).__name__}:dotted-member-name", f"{key!r}: {exc!r}", case)
     types = list(R.NAMES)
     small = [dt for dt in types if dt in R.INTEGERS and R.INTEGERS[dt] <= 16]
     mine = [dt for i, dt in enumerate(types) if i % desc["parts"] == desc["part"]]
@@ -250,10 +268,17 @@ def owner_of(dt, v, nthreads):
     return None
 
 
+IDLE_NODE = 41        # a node the master also knows, and to which it never talks during the run
+
+
 def noise_loop(station, stop, rng, node_ids):
     """Unrelated traffic: PDOs, heartbeats, EMCY, SYNC and SDO frames of *other* node ids."""
     others = [i for i in range(40, 60)]
     n = 0
+    # another master polls the idle node: a few hundred answers nobody on this network asked for
+    for _ in range(300):
+        station.send(0x580 + IDLE_NODE, bytes([0x43, 0, 0x20, 0]) + bytes(rng.getrandbits(8) for _ in range(4)))
+        n += 1
     while not stop.is_set():
         kind = rng.random()
         nid = rng.choice(others)
@@ -294,6 +319,9 @@ def client_thread(ctx, rig, nid, tid, nthreads, ops, seed, mode, errors):
                 got_l = local.sdo[key].raw
             except Exception as exc:  # noqa: BLE001
                 errors.append((case, exc, time.time() - t0))
+                mst = getattr(rig, "master_station", None)
+                if mst is not None and mst.delivering_since is not None and time.time() - mst.delivering_since > 10.0:
+                    break               # the network's receive path is stuck: nothing more can be learnt from this thread
                 continue
             ctx.count("roundtrips")
             ctx.count("store_bytes_compared")
@@ -340,6 +368,8 @@ def run_threaded(ctx, desc):
         rig = rigs.PairRig(od_factory, node_ids, mode="threaded", timeout=20.0, seed=desc["cs"], max_delay=0.0006,
                            master_kw={"fragile": mode == "fragile"})
         rig.noise = rig.bus.actor_station("noise")
+    import canopen
+    rig.master_net.add_node(canopen.RemoteNode(IDLE_NODE, od_factory()))
     pert = None
     if desc.get("perturb") or mode in ("fragile",):
         pert = perturb.Perturb(seed=desc["cs"], p_yield=0.02).start()
@@ -369,6 +399,12 @@ def run_threaded(ctx, desc):
     ctx.add("noise_frames", noise_count[0])
     if hung:
         ctx.inconc(f"client threads still running after the watchdog: {hung}", {"mode": mode, "threads": nthreads})
+    mst = getattr(rig, "master_station", None)
+    blocked = mst is not None and mst.delivering_since is not None and time.time() - mst.delivering_since > 10.0
+    if blocked:
+        ctx.violation(f"receive-path-blocked:{mode}", f"the master network's receive path has not returned from one frame for "
+                      f"{time.time() - mst.delivering_since:.0f} s (every later frame of every node is stuck behind it)", {"mode": mode, "threads": nthreads})
+        errors = [e for e in errors if not (isinstance(e[1], SdoCommunicationError) and "No SDO response" in str(e[1]))]
     tainted = set()         # nodes on which a time-out was put down to starved harness threads: a late answer may follow
     for case, exc, dt_ in errors:
         if case.get("fatal"):
